@@ -428,6 +428,12 @@ def build(rng, name, nfuncs=12, opts=None, live=4, abandon=False):
             if op == "throw":
                 entries.append([rng.choice(["exhaust", "exhaust", "drop", "throw"]), s])
                 entries.append(["exhaust", s])
+        elif opts and opts.get("threads") and rng.random() < 0.5:
+            # handed to a worker thread and finished there; ordinary calls follow on the traced thread
+            entries.append(["thread-exhaust", s])
+            plain = [f for f in callable_fns if f.flavor == "plain"]
+            for _ in range(rng.choice([2, 4, 6]) if plain else 0):
+                entries.append(["call", rng.choice(plain).call_expr(g, rng)])
         else:
             entries.append(["exhaust", s])
     pre = []
